@@ -233,12 +233,14 @@ def check_wrap_whole(template, text):
         # text; only "inserted once" is checked
         want = norm_lines(whole)
         got = norm_lines(re.sub(r'<[^<>]*>', '', out)) if '<' not in whole and '>' not in whole else None
-        if got is not None and got != want:
+        if got is not None and got != want and got.replace('$#', '', 1).strip() != want:
             return '%r with text %r -> %r: the text does not occur exactly once' % (abbr, text, out)
         return None
     if not (out.startswith(pre) and out.endswith(suf) and len(out) >= len(pre) + len(suf)):
         return '%r with text %r -> %r, expected %r + %r + text + %r' % (abbr, text, out, pre, own, suf)
     mid = out[len(pre):len(out) - len(suf)]
+    if '$#' in abbr and norm_lines(mid).startswith('$#'):
+        mid = mid.replace('$#', '', 1)     # `$#` without implicit repeater may stay as written (statement silent)
     want = own + whole.strip()
     if norm_lines(mid) != norm_lines(want):
         return '%r with text %r -> %r: content of the deepest last element is %r, expected %r ' \
